@@ -1983,6 +1983,13 @@ class XNor(Any):
     """
 
     def __init__(self, *propositions, variable: typing.Union[puan.variable, str] = None):
+        propositions = list(propositions)
+        self.xnor_propositions = list(
+            map(
+                lambda x: puan.variable(x) if type(x) == str else x,
+                propositions,
+            )
+        )
         super().__init__(
             AtLeast(value=1, propositions=propositions).negate(), 
             AtMost(value=1, propositions=propositions).negate(), 
@@ -2041,7 +2048,9 @@ class XNor(Any):
             'propositions': list(
                 map(
                     maz.compose(operator.methodcaller("to_json")),
-                    self.propositions[0].negate().propositions
+                    # the propositions given when created. Negating one of the inner propositions 
+                    # back does not give them when they are compound propositions
+                    sorted(self.xnor_propositions) if hasattr(self, "xnor_propositions") else self.propositions[0].negate().propositions
                 )
             ) if len(self.propositions) > 0 else [],
         }
